@@ -486,9 +486,12 @@ func Generate(r *rng.R) (*scen.Scenario, string) {
 		cfg.PInvalid = 6
 		sc := scen.Generate(r, cfg)
 		dedupListeners(sc.Objs)
+		admissibleFilters(sc.Objs)
 		return sc, "scen"
 	}
-	return GenRouting(r), "routing"
+	sc := GenRouting(r)
+	admissibleFilters(sc.Objs)
+	return sc, "routing"
 }
 
 // AddNoise returns the scenario's objects plus resources that own no request: routes whose parentRefs do not
@@ -628,5 +631,39 @@ func dedupListeners(objs []client.Object) {
 			}
 		}
 		g.Spec.Listeners = keep
+	}
+}
+
+// admissibleFilters enforces the CEL rule of HTTPRouteRule: a filter with path type ReplacePrefixMatch requires
+// exactly one match, of type PathPrefix.
+func admissibleFilters(objs []client.Object) {
+	for _, o := range objs {
+		hr, ok := o.(*gatewayv1.HTTPRoute)
+		if !ok {
+			continue
+		}
+		for i := range hr.Spec.Rules {
+			rule := &hr.Spec.Rules[i]
+			prefixMod := false
+			for _, f := range rule.Filters {
+				if f.URLRewrite != nil && f.URLRewrite.Path != nil && f.URLRewrite.Path.Type == gatewayv1.PrefixMatchHTTPPathModifier {
+					prefixMod = true
+				}
+				if f.RequestRedirect != nil && f.RequestRedirect.Path != nil && f.RequestRedirect.Path.Type == gatewayv1.PrefixMatchHTTPPathModifier {
+					prefixMod = true
+				}
+			}
+			if !prefixMod {
+				continue
+			}
+			if len(rule.Matches) == 0 {
+				rule.Matches = []gatewayv1.HTTPRouteMatch{p.PathMatch("PathPrefix", "/")}
+			}
+			rule.Matches = rule.Matches[:1]
+			if rule.Matches[0].Path == nil {
+				rule.Matches[0].Path = &gatewayv1.HTTPPathMatch{Value: ptr("/")}
+			}
+			rule.Matches[0].Path.Type = ptr(gatewayv1.PathMatchPathPrefix)
+		}
 	}
 }
